@@ -56,7 +56,16 @@ def random_tiling(rng, R, C):
     return owner
 
 
-def table_xml(owner, rng, n_head, spelling, nested=None):
+# cell contents that are NOT unique to a cell: ordinary cells and continuation cells draw from the same pool, so that
+# cells (and rows) that are equal AS VALUES occur next to each other ("arbitrary cell content": empty cells are the norm)
+POOL = [("", lambda: []), ("", lambda: [el("w:p")]), ("CONT", lambda: [el("w:p", [], [el("w:r", [], [el("w:t", [], ["CONT"])])])]),
+        ("x", lambda: [el("w:p", [], [el("w:r", [], [el("w:t", [], ["x"])])])]), ("", lambda: [el("w:p"), el("w:p")])]
+
+
+def table_xml(owner, rng, n_head, spelling, nested=None, late=(), pool=0.0, texts=None, noise=0.0):
+    """late: rows below the leading header block that carry w:tblHeader all the same; pool: probability that a cell takes a
+    shared (empty / repeated) content instead of its unique label; texts: dict filled with owner -> expected text;
+    noise: probability of property elements that do not matter (tcW, explicit gridSpan 1, restart without continuation, ...)"""
     R, C = len(owner), len(owner[0])
     rows = []
     labels = {}
@@ -71,8 +80,14 @@ def table_xml(owner, rng, n_head, spelling, nested=None):
             first = r == 0 or owner[r - 1][c] != k
             last = r == R - 1 or owner[r + 1][c] != k
             tcpr = []
+            if noise and rng.random() < noise:
+                tcpr.append(el("w:tcW", [("w:w", "1000"), ("w:type", "dxa")]))
             if w > 1:
                 tcpr.append(el("w:gridSpan", [("w:val", str(w))]))
+            elif noise and rng.random() < noise:
+                tcpr.append(el("w:gridSpan", [("w:val", "1")]))
+            if first and last and noise and rng.random() < noise:
+                tcpr.append(el("w:vMerge", [("w:val", "restart")]))     # a merge of one row
             if not (first and last):
                 if first:
                     tcpr.append(el("w:vMerge", [("w:val", "restart")]))
@@ -80,31 +95,83 @@ def table_xml(owner, rng, n_head, spelling, nested=None):
                     sp = spelling if spelling != "mixed" else rng.choice(["continue", "bare"])
                     tcpr.append(el("w:vMerge", [("w:val", "continue")] if sp == "continue" else []))
             content = []
-            if first:
+            if first and pool and rng.random() < pool:
+                labels[k], mk = rng.choice(POOL)
+                content.extend(mk())
+            elif first:
                 labels[k] = "c%d" % k
                 content.append(el("w:p", [], [el("w:r", [], [el("w:t", [], [labels[k]])])]))
                 if nested is not None and rng.random() < 0.2:
                     content.append(nested)
                     content.append(el("w:p"))
+                    if rng.random() < 0.25:
+                        # two tables in one cell, only the obligatory empty paragraph between them
+                        content.append(nested)
+                        content.append(el("w:p"))
+            elif pool and rng.random() < 0.7:
+                content.extend(rng.choice(POOL)[1]())
             elif rng.random() < 0.3:
                 content.append(el("w:p", [], [el("w:r", [], [el("w:t", [], ["CONT"])])]))
+            if noise and rng.random() < noise / 2:
+                tcpr.append(el("w:shd", [("w:val", "clear"), ("w:fill", "auto")]))
             cells.append(el("w:tc", [], ([el("w:tcPr", [], tcpr)] if (tcpr or rng.random() < 0.5) else []) + content))
             c += w
-        trpr = [el("w:tblHeader")] if r < n_head else []
+        trpr = [el("w:tblHeader")] if (r < n_head or r in late) else []
+        if noise and rng.random() < noise:
+            trpr.insert(rng.randint(0, len(trpr)), el(rng.choice(["w:cantSplit", "w:trHeight", "w:jc"]), [("w:val", "1")]))
         rows.append(el("w:tr", [], ([el("w:trPr", [], trpr)] if (trpr or rng.random() < 0.3) else []) + cells))
     pre = [el("w:tblPr")] if rng.random() < 0.5 else []
+    if noise and rng.random() < 0.5:
+        pre.append(el("w:tblGrid", [], [el("w:gridCol", [("w:w", "1000")]) for _ in range(C)]))
+    if texts is not None:
+        texts.update(labels)
     return el("w:tbl", [], pre + rows)
+
+
+def heads_of(owner, rng):
+    """(number of leading header rows - a prefix that no merge crosses -, rows BELOW the first non-header row that carry
+    w:tblHeader as well: those are ordinary body rows, td in tbody)"""
+    R = len(owner)
+    cands = [h for h in range(0, R + 1) if h in (0, R) or all(owner[h - 1][c] != owner[h][c] for c in range(len(owner[0])))]
+    n_head = rng.choice(cands) if rng.random() < 0.5 else 0
+    late = ()
+    if n_head + 1 < R and rng.random() < 0.3:
+        late = tuple(r for r in range(n_head + 1, R) if rng.random() < 0.5) or (rng.randint(n_head + 1, R - 1),)
+    return n_head, late
 
 
 def case_of(owner, rng, key, spelling="mixed", nested_owner=None):
     R = len(owner)
-    # header rows: a prefix that no merge crosses
-    cands = [h for h in range(0, R + 1) if h in (0, R) or all(owner[h - 1][c] != owner[h][c] for c in range(len(owner[0])))]
-    n_head = rng.choice(cands) if rng.random() < 0.5 else 0
-    nested = table_xml(nested_owner, rng, 0, spelling) if nested_owner is not None else None
-    tbl = table_xml(owner, rng, n_head, spelling, nested)
-    parts = [{"name": "word/document.xml", "xml": el("w:document", [], [el("w:body", [], [tbl])])}]
-    return {"parts": parts, "options": {}, "key": key, "owner": owner, "n_head": n_head, "noshrink": True, "features": []}
+    # header rows: a prefix that no merge crosses (plus, sometimes, flagged rows further down)
+    n_head, late = heads_of(owner, rng)
+    pool = rng.choice([0.0, 0.0, 0.3, 0.6, 1.0])
+    noise = rng.choice([0.0, 0.0, 0.3])
+    texts, ntexts, nspec = {}, {}, None
+    nested = None
+    if nested_owner is not None:
+        nh, nlate = heads_of(nested_owner, rng)
+        nested = table_xml(nested_owner, rng, nh, spelling, None, nlate, pool, ntexts, noise)
+        nspec = {"owner": nested_owner, "n_head": nh, "late": list(nlate), "texts": [ntexts[k] for k in range(len(ntexts))]}
+    tbl = table_xml(owner, rng, n_head, spelling, nested, late, pool, texts, noise)
+    body, more = [tbl], []
+    if rng.random() < 0.25:
+        # further tables right after the first: nothing between them, or the empty paragraph(s) Word puts there, or text
+        for _ in range(rng.choice([1, 1, 2])):
+            ow2 = random_tiling(rng, rng.randint(1, 3), rng.randint(1, 3)) if rng.random() < 0.7 else owner
+            nh2, late2 = heads_of(ow2, rng)
+            t2 = {}
+            sep = rng.choice(["none", "empty", "empty", "empty2", "text"])
+            body += {"none": [], "empty": [el("w:p")], "empty2": [el("w:p"), el("w:p", [], [el("w:pPr")])],
+                     "text": [el("w:p", [], [el("w:r", [], [el("w:t", [], ["between"])])])]}[sep]
+            body.append(table_xml(ow2, rng, nh2, spelling, None, late2, pool, t2, noise))
+            more.append({"owner": ow2, "n_head": nh2, "late": list(late2), "texts": [t2[k] for k in range(len(t2))], "sep": sep})
+        if rng.random() < 0.5:
+            body.append(el("w:p"))
+    parts = [{"name": "word/document.xml", "xml": el("w:document", [], [el("w:body", [], body)])}]
+    feats = (["several-tables"] if more else []) + (["adjacent-tables"] if any(m["sep"] != "text" for m in more) else []) + (["late-header-row"] if late else []) + (["shared-cell-content"] if pool else []) + (["property-noise"] if noise else []) + \
+            (["nested-late-header" if nspec["late"] else "nested-header"] if nspec and (nspec["n_head"] or nspec["late"]) else [])
+    side = {"owner": owner, "n_head": n_head, "late": list(late), "texts": [texts[k] for k in range(len(texts))], "nested": nspec, "more": more}
+    return dict(side, parts=parts, options={}, key=key, noshrink=True, features=feats, meta=side)    # meta: what a replay needs to observe again
 
 
 def grid_ok(case, r):
@@ -141,11 +208,92 @@ def grid_ok(case, r):
                 probs.append("gap at %d,%d" % (rr, cc))
                 continue
             hr, hk = lay[(rr, cc)]
+            want = case["texts"][owner[rr][cc]] if case.get("texts") is not None else "c"
+            if not want.startswith("c"):
+                # a cell without a label of its own (empty / repeated content): its text here, its identity by extent in grid_ok2
+                if HO.text_of(rows[hr][hk][3][3]) != want:
+                    probs.append("position %d,%d is covered by a cell with text %r, the document's cell there has %r" % (rr, cc, HO.text_of(rows[hr][hk][3][3]), want))
+                continue
             label = HO.text_of(rows[hr][hk][3][3]).replace("CONT", "")
             if not label.startswith("c%d" % owner[rr][cc]) or (label[len("c%d" % owner[rr][cc]):][:1].isdigit()):
                 probs.append("position %d,%d is covered by cell %r, the document says c%d" % (rr, cc, label, owner[rr][cc]))
     if any(k[0] >= R or k[1] >= C for k in lay):
         probs.append("a cell sticks out of the grid")
+    return probs[:3]
+
+
+def extent_probs(rows, sections, owner, n_head, texts, what):
+    """the statement read cell by cell: the cells of the HTML table, laid out by the HTML algorithm, occupy exactly the
+    rectangles of the document's cells (same anchor, same extent - this identifies a cell even when its content is not
+    unique), carry the document cell's text, and are th in thead for the leading header rows and td in tbody elsewhere"""
+    R, C = len(owner), len(owner[0])
+    if len(rows) != R:
+        return ["%s: %d tr elements for %d rows" % (what, len(rows), R)]
+    probs = []
+    for i, cells in enumerate(rows):
+        sec = ("thead" if i < n_head else "tbody") if n_head else None
+        if sections[i] != sec:
+            probs.append("%s: row %d is in %s, expected %s" % (what, i, sections[i], sec))
+        for cell in cells:
+            if cell[0] != ("th" if i < n_head else "td"):
+                probs.append("%s: row %d has a %s cell, expected %s (leading header rows: %d)" % (what, i, cell[0], "th" if i < n_head else "td", n_head))
+    try:
+        lay = HO.html_layout([[(t, cs, rs) for (t, cs, rs, _n) in cells] for cells in rows])
+    except HO.Malformed as e:
+        return probs + ["%s: HTML layout overlaps: %s" % (what, e)]
+    got = {}
+    for pos, cell in lay.items():
+        got.setdefault(cell, set()).add(pos)
+    exp = {}
+    for rr in range(R):
+        for cc in range(C):
+            exp.setdefault(owner[rr][cc], set()).add((rr, cc))
+    by_extent = {frozenset(v): k for k, v in got.items()}
+    if len(got) != sum(len(cells) for cells in rows):
+        probs.append("%s: a cell element occupies no slot" % what)
+    for k in sorted(exp):
+        cell = by_extent.pop(frozenset(exp[k]), None)
+        if cell is None:
+            probs.append("%s: no cell element occupies exactly the positions %r of document cell %d" % (what, sorted(exp[k]), k))
+            continue
+        if texts is not None:
+            text = HO.text_of([n for n in rows[cell[0]][cell[1]][3][3] if not (n[0] == "el" and n[1] == "table")])
+            if text != texts[k]:
+                probs.append("%s: the cell at %r has text %r, the document's cell has %r" % (what, sorted(exp[k])[0], text, texts[k]))
+    for ext in by_extent:
+        probs.append("%s: a cell element occupies %r, which is no cell of the document" % (what, sorted(ext)))
+    # cells of one row are written in document order (left to right)
+    for i, cells in enumerate(rows):
+        cols = [min(c for (r_, c) in got[(i, k)]) for k in range(len(cells)) if (i, k) in got]
+        if cols != sorted(cols):
+            probs.append("%s: cells of row %d out of order" % (what, i))
+    return probs
+
+
+def grid_ok2(case, r):
+    """second independent observation (extent and text of every cell; nested tables too)"""
+    try:
+        nodes = HO.parse(r["value"])
+    except HO.Malformed as e:
+        return []           # reported by grid_ok
+    if not HO.table_grids(nodes):
+        return []
+    # one table element per table of the document, in order (tables that follow each other stay separate tables)
+    tops = [n for n in nodes if n[0] == "el" and n[1] == "table"]
+    specs = [case] + list(case.get("more") or [])
+    probs = []
+    if len(tops) != len(specs):
+        probs.append("%d table elements at the top level for the %d tables of the document" % (len(tops), len(specs)))
+    for i, (top, spec) in enumerate(zip(tops, specs)):
+        tables = HO.table_grids([top])
+        probs.extend(extent_probs(tables[0][0], tables[0][1], spec["owner"], spec["n_head"], spec.get("texts"), "table %d" % (i + 1)))
+        ns = spec.get("nested")
+        if ns is not None:
+            # every nested table is the same table; it has its own header rows, whatever the row of the outer table it sits in
+            for rows, sections in tables[1:]:
+                probs.extend(extent_probs(rows, sections, ns["owner"], ns["n_head"], ns["texts"], "nested table"))
+        elif len(tables) > 1:
+            probs.append("table %d: %d table elements for one table" % (i + 1, len(tables)))
     return probs[:3]
 
 
@@ -172,17 +320,20 @@ def run(out, tier, seed, model_ok):
         R, C = rng.randint(1, 6), rng.randint(1, 6)
         nested = random_tiling(rng, rng.randint(1, 3), rng.randint(1, 3)) if rng.random() < 0.3 else None
         cs.append(case_of(random_tiling(rng, R, C), rng, "c09-r%d-%d" % (seed, i), "mixed", nested))
-    run_ = A.ApiRun(out, "C09", model_ok, project, observers=[grid_ok], name="grid")
+    run_ = A.ApiRun(out, "C09", model_ok, project, observers=[grid_ok, grid_ok2], name="grid")
     run_.run(cs, nontrivial=lambda c, r: len({x for row in c["owner"] for x in row}) < len(c["owner"]) * len(c["owner"][0]))
     out.rule = ("tables obtained by tiling an R x C grid with rectangles: all tilings up to %dx%d (exhaustive, both spellings of continuation) and random tilings up to 6x6 with "
-                "nested tables, leading header rows never crossed by a merge, continuation cells with stray content; observation = one tr per row, th/thead for header rows, and "
-                "the grid laid out by an independent implementation of the HTML table algorithm must be covered exactly by the document's owner cells (no overlap, no gap); "
+                "nested tables (with header rows of their own), leading header rows never crossed by a merge, w:tblHeader also on rows below the first non-header row (body rows), "
+                "continuation cells with stray content, cells with empty / repeated content (cells and rows that are equal as values), irrelevant tcPr/trPr/tblGrid elements, further tables directly after the first (separated by nothing, empty paragraphs or text) and two tables in one cell; observation = one tr per row, th/thead for header rows, and "
+                "the grid laid out by an independent implementation of the HTML table algorithm must be covered exactly by the document's owner cells (no overlap, no gap), every cell element occupying exactly the rectangle and carrying the text of its document cell; "
                 "also compared with the Lean model (C09_rowspans_spec / C09_layout_eq); non-trivial = some cell spans more than one position" % (maxn, maxn))
-    out.extra.update(exhaustive_part=nex)
+    out.extra.update(exhaustive_part=nex, features=run_.stats)
     out.sample({"owner": cs[nex - 1]["owner"], "n_head": cs[nex - 1]["n_head"]})
     out.sample({"owner": cs[-1]["owner"], "n_head": cs[-1]["n_head"]})
 
 
 def replay(out, payload, model_ok):
     case = payload["case"]
-    A.replay_case(out, "C09", model_ok, payload, project, [grid_ok] if "owner" in case else [])
+    if "owner" not in case and isinstance(case.get("meta"), dict) and "owner" in case["meta"]:
+        case.update(case["meta"])
+    A.replay_case(out, "C09", model_ok, payload, project, [grid_ok, grid_ok2] if "owner" in case else [])
